@@ -83,6 +83,8 @@ class Ctx:
         self.model_runs.append({"module": module, "label": label or "", "generated": r.generated,
                                 "distinct": r.distinct, "depth": r.depth, "violated": r.violated,
                                 "wall_s": round(r.wall, 2)})
+        if expect_violation == "any":          # trace specifications: a violated Conforms is a verdict about the code
+            return r
         if expect_violation is None and r.violated:
             raise tlc.TlcError(f"specification {module} ({label}) violates its own property "
                                f"{r.violated}:\n{r.trace_text[:3000]}")
